@@ -160,6 +160,9 @@ o:
 			if !ok {
 				break o
 			}
+			// The map is reused between messages: entries of the previous message must
+			// not be sent again when the switch does not overwrite them.
+			clear(addrMap)
 			if err = bsw.Switch(ctx, msg, addrMap); err != nil {
 				return err
 			}
